@@ -179,10 +179,10 @@ be_pair_transfer(struct bufferevent *src, struct bufferevent *dst,
 		    !BEV_UPCAST(dst)->read_suspended)
 			BEV_RESET_GENERIC_READ_TIMEOUT(dst);
 
-		if (evbuffer_get_length(dst->output) &&
-		    (dst->enabled & EV_WRITE))
-			BEV_RESET_GENERIC_WRITE_TIMEOUT(dst);
-		else
+		/* Receiving is no progress for the receiver's own output:
+		 * its write timeout keeps running if it has any waiting. */
+		if (!evbuffer_get_length(dst->output) ||
+		    !(dst->enabled & EV_WRITE))
 			BEV_DEL_GENERIC_WRITE_TIMEOUT(dst);
 		/* The transfer is progress for the sender's write direction */
 		if (evbuffer_get_length(src->output) &&
